@@ -1033,6 +1033,10 @@ func (g *G) gepGlobals() {
 						c = vc
 						gi.VecLen = vlen
 					}
+					if f == 0 && g.chance("czeroidx", 1, 3) {
+						c = &am.Const{K: am.CZero, T: c.T}
+						g.feat("gep/struct-index-zeroinitializer")
+					}
 					t = fs[f]
 					e.Args = append(e.Args, c)
 					idx = append(idx, gi)
